@@ -7,6 +7,7 @@ import os
 import random
 import re
 import shutil
+import time
 import xml.etree.ElementTree as ET
 
 import rewrite_core as rc
@@ -31,8 +32,9 @@ def tlc_histories(prop, maxlen):
     return sorted(hs)
 
 
-MODEL_VARIANTS = [("ideal", "TRUE", True), ("ideal", "FALSE", False), ("line8", "TRUE", False), ("nameKeyed", "TRUE", False),
-                  ("orderDep", "TRUE", False)]
+MODEL_VARIANTS = {"C05": [("ideal", "TRUE", True), ("ideal", "FALSE", False), ("line8", "TRUE", False), ("nameKeyed", "TRUE", False),
+                          ("orderDep", "TRUE", False)],
+                  "C06": [("ideal", "TRUE", True), ("ideal", "FALSE", False), ("aliasLosesSign", "TRUE", False)]}
 
 
 def model_check_one(variant, table, expect_ok, maxlen):
@@ -51,8 +53,8 @@ def model_check_one(variant, table, expect_ok, maxlen):
     return {"model": "Rewrite", "variant": variant, "table": table, "maxlen": maxlen, "distinct": r.distinct, "holds": r.ok}
 
 
-def model_check_async(pool, maxlen):
-    return [pool.submit(model_check_one, v, t, e, maxlen) for (v, t, e) in MODEL_VARIANTS]
+def model_check_async(pool, maxlen, prop="C05"):
+    return [pool.submit(model_check_one, v, t, e, maxlen) for (v, t, e) in MODEL_VARIANTS[prop]]
 
 
 def judge(records):
@@ -108,7 +110,14 @@ def analyze(text, lang, facts, witness):
     with open(os.path.join(d, fn), "w") as f:
         f.write(text)
     args = list(CPPCHECK_OPTS) + (["--dump"] if facts else []) + [fn]
-    rc_, _out, err = vlib.run_cppcheck(args, cwd=d, timeout=300)
+    for attempt in range(5):
+        try:
+            rc_, _out, err = vlib.run_cppcheck(args, cwd=d, timeout=300)
+            break
+        except OSError as ex:          # the shared build tree is being re-linked by another check: wait and try again
+            if attempt == 4:
+                raise vlib.InfraError("cannot execute %s: %s" % (vlib.cppcheck_bin(), ex))
+            time.sleep(3 + 4 * attempt)
     if rc_ is None:
         raise vlib.InfraError("cppcheck timeout on\n" + text[:2000])
     res = {"rc": rc_, "findings": rc.parse_output(err), "facts": None, "cc": -1}
@@ -205,6 +214,8 @@ def run_corpus(progs, chains_of, facts=False, witness_every=1, log=None, both_la
         per_prog[pi] = {"obs": [], "obs_idx": {}, "maps": [], "maps_idx": {}}
     trace_recs = []
     counted = set()
+    pairs = set()
+    stats["samples"] = []
     for (pi, lang, ch, seq) in plan:
         prog = progs[pi]
         pp = per_prog[pi]
@@ -237,7 +248,15 @@ def run_corpus(progs, chains_of, facts=False, witness_every=1, log=None, both_la
                 stats["steps"] += 1
                 if dg != seq[si - 1][2]:
                     stats["steps_text_changed"] += 1
+                    pairs.add((pi, lang, kind, seq[si - 1][2], dg))
+                    if len(stats["samples"]) < 2 and si == len(seq) - 1:
+                        stats["samples"].append({"program": prog["name"], "language": lang, "history": list(ch),
+                                                 "last_rewrite": step,
+                                                 "text_before": jobs[(pi, lang, seq[si - 1][2])][:600],
+                                                 "text_after": jobs[(pi, lang, dg)][:600],
+                                                 "observation_size": len(ob)})
         trace_recs.append((pi, {"t": "trace", "pi": None, "lang": lang, "o0": o0, "cc0": cc0, "steps": steps}, ch))
+    stats["distinct_pairs"] = len(pairs)
     line = 0
     for pi, prog in enumerate(progs):
         pp = per_prog[pi]
